@@ -220,6 +220,37 @@ func c11Eval(c *fw.Ctx, k c11Case) (sig, desc string, nontrivial bool) {
 	if len(recs) != 1 || recs[0].Arch != ps.a || recs[0].T != t || !sameVal(recs[0].Src, want[ps.a].Vals[ps.j]) || !sameVal(recs[0].Dst, newv) {
 		return "C11/sum-diff/listing", fmt.Sprintf("sum-diff %s: perturbed archive %d t=%d (sum %v, dest %v) but listed %v", ctx, ps.a, t, want[ps.a].Vals[ps.j], newv, recs), true
 	}
+	// a second session: one source file changes in one slot; sum-copy runs again on the (perturbed) destination
+	f2 := wsp.CloneRings(files[0])
+	a0 := l.Archs[ps.a]
+	f2[ps.a][uint32(t/int64(a0.Step))%a0.N] = wsp.Slot{T: uint32(t), V: 1000.25}
+	(&BFile{L: l, Rings: f2}).Write(filepath.Join(sbase, "it", "x", "a.wsp"))
+	files2 := append([][]wsp.Ring{f2}, files[1:]...)
+	err, pn = RunCommand(k.Now, sc)
+	os.Remove(out)
+	if classify(err, pn) == "nil" {
+		b2, _ := os.ReadFile(dpath)
+		if pf2, e2 := wsp.Parse(b2); e2 == nil {
+			if g2, e2 := pf2.Rings(); e2 == nil {
+				w2, _ := ExpSum(l, files2, k.Archive, k.From, until, k.Now)
+				h2, _ := ExpRead(l, g2, k.Archive, k.From, until, k.Now)
+				for i := range w2 {
+					if w2[i] == nil {
+						continue
+					}
+					for j, sv := range w2[i].Vals {
+						if !valEqual(sv, h2[i].Vals[j]) {
+							return "C11/second-session/dest-differs", fmt.Sprintf("sum-copy %s: after one source slot changed and sum-copy ran again: archive %d value %d is %v, the sum is %v", ctx, i, j, h2[i].Vals[j], sv), true
+						}
+					}
+				}
+			} else {
+				return "C11/second-session/destination-unparsable", ctx + ": " + e2.Error(), true
+			}
+		}
+	} else if classify(err, pn) == "panic" {
+		return "C11/sum-copy/panic", ctx + ": second session: " + firstLine(pn), true
+	}
 	return "", "", true
 }
 
@@ -229,8 +260,8 @@ func runC11(c *fw.Ctx) {
 		base  int // choices per slot of the two source files
 		every int // quick: take every n-th source pair
 	}
-	plans := []plan{{"L4", 3, 5}, {"L10", 2, 1}}
-	c.R.Bounds["contents"] = "L4: two source files x 3^5 hole patterns each (every 5th pair in quick, all 59049 in thorough); L10 (three levels, 6 slots): two source files x 2^6 each (all 4096 pairs); destinations {missing, never written, equal to the sum in coarser archives only, 8 (32 thorough) arbitrary contents}; a second single-file item in every world"
+	plans := []plan{{"L4", 3, 7}, {"L10", 2, 1}}
+	c.R.Bounds["contents"] = "L4: two source files x 3^5 hole patterns each (every 7th pair in quick, all 59049 in thorough); L10 (three levels, 6 slots): two source files x 2^6 each (all 4096 pairs); destinations {missing, never written, equal to the sum in coarser archives only, 8 (32 thorough) arbitrary contents}; a second single-file item in every world"
 	idx := 0
 	for _, pl := range plans {
 		ld := LayoutByTag(pl.tag)
